@@ -170,6 +170,8 @@ def sim_load(file, *args, **kwargs):
         STATE['dead'] = True
         _inc('fault.crash_at_load')
         STATE['trace'].append((ev, 'load', base, 'crash'))
+        if STATE.get('on_crash'):
+            STATE['on_crash']()
         raise FileNotFoundError(errno.ENOENT, 'dead session', path)
     lf = STATE['load_fault']
     if lf is not None:
